@@ -278,42 +278,42 @@
         };
     }
 
-    // @harness ids=C11,C01 tier=quick kind=proof units=outstation::database::details::range::writer::RangeWriter::write timeout=600 note="BinaryInput, running header g1v1 (packed bits) or Start/Full, next object g1v1 or g1v2, 16-byte buffer, arbitrary INV state, any index, any value: continue IFF same variation and index = stop+1 (stop patched, bit at its standard position, earlier bits kept), else new header behind the cursor; no room => Err, cursor and everything before it unchanged, writer Full; INV re-established"
+    // @harness ids=C11,C09,C10,C01 tier=quick kind=proof units=outstation::database::details::range::writer::RangeWriter::write timeout=600 note="BinaryInput, running header g1v1 (packed bits) or Start/Full, next object g1v1 or g1v2, 16-byte buffer, arbitrary INV state, any index, any value: continue IFF same variation and index = stop+1 (stop patched, bit at its standard position, earlier bits kept), else new header behind the cursor; no room => Err, cursor and everything before it unchanged, writer Full; INV re-established"
     writer_step_harness!(vk_c11_writer_step_g1v1, 16, 0, 0, 18, true,
         BinaryInput { value: kani::any(), flags: Flags::new(kani::any()), time: cm::any_time() },
         StaticBinaryInputVariation::Group1Var1, StaticBinaryInputVariation::Group1Var2, [(1, 1), (1, 2)]);
 
-    // @harness ids=C11,C01 tier=thorough kind=proof units=outstation::database::details::range::writer::RangeWriter::write timeout=600 note="BinaryInput, running header g1v2 (one octet per object) or Start/Full, next object g1v1 or g1v2: same contract"
+    // @harness ids=C11,C09,C10,C01 tier=thorough kind=proof units=outstation::database::details::range::writer::RangeWriter::write timeout=600 note="BinaryInput, running header g1v2 (one octet per object) or Start/Full, next object g1v1 or g1v2: same contract"
     writer_step_harness!(vk_c11_writer_step_g1v2, 16, 1, 0, 18, true,
         BinaryInput { value: kani::any(), flags: Flags::new(kani::any()), time: cm::any_time() },
         StaticBinaryInputVariation::Group1Var1, StaticBinaryInputVariation::Group1Var2, [(1, 1), (1, 2)]);
 
-    // @harness ids=C11,C01 tier=thorough kind=proof units=outstation::database::details::range::writer::RangeWriter::write timeout=600 note="DoubleBitBinaryInput, running header g3v1 (packed double bits, 4 objects per octet) or Start/Full, next object g3v1 or g3v2: same contract"
+    // @harness ids=C11,C09,C10,C01 tier=thorough kind=proof units=outstation::database::details::range::writer::RangeWriter::write timeout=600 note="DoubleBitBinaryInput, running header g3v1 (packed double bits, 4 objects per octet) or Start/Full, next object g3v1 or g3v2: same contract"
     writer_step_harness!(vk_c11_writer_step_g3v1, 16, 0, 0, 18, true,
         DoubleBitBinaryInput { value: cm::any_double_bit(), flags: Flags::new(kani::any()), time: cm::any_time() },
         StaticDoubleBitBinaryInputVariation::Group3Var1, StaticDoubleBitBinaryInputVariation::Group3Var2, [(3, 1), (3, 2)]);
 
-    // @harness ids=C11,C01 tier=thorough kind=proof units=outstation::database::details::range::writer::RangeWriter::write timeout=600 note="DoubleBitBinaryInput, running header g3v2: same contract"
+    // @harness ids=C11,C09,C10,C01 tier=thorough kind=proof units=outstation::database::details::range::writer::RangeWriter::write timeout=600 note="DoubleBitBinaryInput, running header g3v2: same contract"
     writer_step_harness!(vk_c11_writer_step_g3v2, 16, 1, 0, 18, true,
         DoubleBitBinaryInput { value: cm::any_double_bit(), flags: Flags::new(kani::any()), time: cm::any_time() },
         StaticDoubleBitBinaryInputVariation::Group3Var1, StaticDoubleBitBinaryInputVariation::Group3Var2, [(3, 1), (3, 2)]);
 
-    // @harness ids=C11,C01 tier=thorough kind=proof units=outstation::database::details::range::writer::RangeWriter::write timeout=600 note="BinaryOutputStatus, running header g10v1 (packed bits) or Start/Full, next object g10v1 or g10v2: same contract"
+    // @harness ids=C11,C09,C10,C01 tier=thorough kind=proof units=outstation::database::details::range::writer::RangeWriter::write timeout=600 note="BinaryOutputStatus, running header g10v1 (packed bits) or Start/Full, next object g10v1 or g10v2: same contract"
     writer_step_harness!(vk_c11_writer_step_g10v1, 16, 0, 0, 18, true,
         BinaryOutputStatus { value: kani::any(), flags: Flags::new(kani::any()), time: cm::any_time() },
         StaticBinaryOutputStatusVariation::Group10Var1, StaticBinaryOutputStatusVariation::Group10Var2, [(10, 1), (10, 2)]);
 
-    // @harness ids=C11,C01 tier=thorough kind=proof units=outstation::database::details::range::writer::RangeWriter::write timeout=600 note="BinaryOutputStatus, running header g10v2: same contract"
+    // @harness ids=C11,C09,C10,C01 tier=thorough kind=proof units=outstation::database::details::range::writer::RangeWriter::write timeout=600 note="BinaryOutputStatus, running header g10v2: same contract"
     writer_step_harness!(vk_c11_writer_step_g10v2, 16, 1, 0, 18, true,
         BinaryOutputStatus { value: kani::any(), flags: Flags::new(kani::any()), time: cm::any_time() },
         StaticBinaryOutputStatusVariation::Group10Var1, StaticBinaryOutputStatusVariation::Group10Var2, [(10, 1), (10, 2)]);
 
-    // @harness ids=C11,C01 tier=thorough kind=proof units=outstation::database::details::range::writer::RangeWriter::write timeout=600 note="Counter, running header g20v2 (3-byte objects) or Start/Full, next object g20v2 or g20v6 (2 bytes), 20-byte buffer: a partially fitting multi-byte object is not counted and the cursor stays at the end of the last complete object"
+    // @harness ids=C11,C09,C10,C01 tier=thorough kind=proof units=outstation::database::details::range::writer::RangeWriter::write timeout=600 note="Counter, running header g20v2 (3-byte objects) or Start/Full, next object g20v2 or g20v6 (2 bytes), 20-byte buffer: a partially fitting multi-byte object is not counted and the cursor stays at the end of the last complete object"
     writer_step_harness!(vk_c11_writer_step_g20v2, 20, 0, 0, 22, false,
         Counter { value: kani::any(), flags: Flags::new(kani::any()), time: cm::any_time() },
         StaticCounterVariation::Group20Var2, StaticCounterVariation::Group20Var6, [(20, 2), (20, 6)]);
 
-    // @harness ids=C11,C01 tier=thorough kind=proof units=outstation::database::details::range::writer::RangeWriter::write timeout=600 note="Counter, running header g20v6 (2-byte objects, no flags): same contract"
+    // @harness ids=C11,C09,C10,C01 tier=thorough kind=proof units=outstation::database::details::range::writer::RangeWriter::write timeout=600 note="Counter, running header g20v6 (2-byte objects, no flags): same contract"
     writer_step_harness!(vk_c11_writer_step_g20v6, 20, 1, 0, 22, false,
         Counter { value: kani::any(), flags: Flags::new(kani::any()), time: cm::any_time() },
         StaticCounterVariation::Group20Var2, StaticCounterVariation::Group20Var6, [(20, 2), (20, 6)]);
